@@ -89,6 +89,9 @@ func (m *RWMutex) Lock() {
 		m.real.Lock()
 		return
 	}
+	// two points: other threads may run before this writer has arrived (with the lock as the
+	// previous operation left it), and again while it waits as a registered writer
+	vsched.Yield("RWMutex.Lock(arrive)")
 	m.wWait++
 	vsched.Block("RWMutex.Lock", func() bool { return !m.w && m.r == 0 })
 	m.wWait--
